@@ -14,7 +14,7 @@ cp $DEMO quil-rs/tests/$DN.rs
 cargo nextest run -p quil-rs --test $DN --offline > $OUT/.demo_without.log 2>&1; W=$?
 # 2. apply
 git apply --3way $PATCH > $OUT/.apply.log 2>&1 || git apply $PATCH >> $OUT/.apply.log 2>&1 || { echo "$ID: patch does not apply"; exit 3; }
-git diff -- . ':!quil-rs/tests' > $OUT/patch.diff
+git diff HEAD -- . ':!quil-rs/tests' > $OUT/patch.diff
 # 3. demo fails with the change
 cargo nextest run -p quil-rs --test $DN --offline > $OUT/.demo_with.log 2>&1; F=$?
 # 4. existing suite passes with the change (demo excluded)
